@@ -261,11 +261,46 @@ pub fn run(ctx: &Ctx) -> Outcome {
         per.push(json!({"scenario": explore::Sys::name(&s), "depth": depth, "states": st.states, "transitions": st.transitions, "depth_completed": st.depth_completed}));
         total.merge(&st);
     }
+    // the accept path of the real session (listener, spawn_peer_listener, the accepted socket):
+    // a peer dials in over loopback TCP and sends nothing / a foreign handshake / a good one
+    let dir = core::private_cwd("c08", "dialin");
+    let t = torrent();
+    let good = refwire::encode(&refwire::handshake(t.meta.info_hash(), b"-HS0001-dialinpeer00"));
+    let mut foreign = good.clone();
+    foreign[28] ^= 0x01;
+    let mut dial_rows = vec![];
+    for (what, chunks) in [("silence", vec![]), ("foreign-info-hash", vec![foreign.clone()]), ("good-handshake", vec![good.clone()]), ("bitfield-before-handshake", vec![refwire::encode(&Msg::Bitfield(vec![0xc0]))])] {
+        match crate::c02::dial_in_exchange(&t, &dir, chunks) {
+            Err(e) => ctx.machinery_error(format!("dial-in exchange '{}' could not run: {}", what, e)),
+            Ok((before, after, closed)) => {
+                dial_rows.push(json!({"case": what, "bytes_before_sending": before.len(), "bytes_after": after.len(), "closed_by_client": closed}));
+                let (msgs, _, _) = refwire::decode_stream(&after);
+                let verdict = if !before.is_empty() {
+                    Some(("reply-before-valid-handshake", format!("{} bytes arrived before the dial-in peer sent anything", before.len())))
+                } else if what != "good-handshake" && !after.is_empty() {
+                    Some(("reply-before-valid-handshake", format!("the dial-in peer sent {} and the client wrote {:?}", what, msgs.iter().map(|m| m.short()).collect::<Vec<_>>())))
+                } else if (what == "foreign-info-hash" || what == "bitfield-before-handshake") && !closed {
+                    Some(("foreign-handshake-not-closed", format!("the dial-in peer sent {} and the client kept the connection open", what)))
+                } else if what == "good-handshake" {
+                    match msgs.first() {
+                        Some(Msg::Handshake { info_hash, peer_id, .. }) if info_hash == t.meta.info_hash() && peer_id == OWN_ID => None,
+                        other => Some(("first-message-is-not-own-handshake", format!("after a good handshake the client's first message to a dial-in peer is {:?}", other.map(|m| m.short())))),
+                    }
+                } else {
+                    None
+                };
+                if let Some((class, why)) = verdict {
+                    ctx.violation(class, format!("[dial-in over loopback: {}] {}", what, why), json!({"scenario": "dial-in", "case": what, "history": []}));
+                }
+            }
+        }
+    }
     let mut o = Outcome::new("model_checking");
+    o.set("dial_in_exchanges", Value::Array(dial_rows));
     explore::stats_outcome(&total, &mut o);
     o.set("scenarios", Value::Array(per));
     o.set("single_bit_hash_corruptions", json!(bit_runs));
-    o.set("rule", json!(format!("BFS to depth {} over the alphabet [HS:good, HS:hash0, HS:hash159, HS:otherid (outgoing only), HS:pstr, HS:pstrlen, HS:trunc, {}] on an outgoing and an incoming connection, manager owning both pieces; -while-downloading variants: the client owns nothing, a second connection D (honest seeder) completes pieces at any point (event Dp, so the manager announces them to every connection task) while the connection under test sends good / corrupted handshakes, KeepAlive, Interested, Have; a state is the canonical snapshot of manager + connection task + files + monitor; histories end when the connection task ended. Plus all 160 single-bit corruptions of the info-hash as first message, both directions. Plus three full-session scenarios borrowed from C02 (identity-*): a re-announce lists a connected address followed by a new one, whose peer presents its own announced id (must stay connected) or the id of the connected peer (must be dropped); a host re-listed under a new id.", depth, PLAIN.join(", "))));
+    o.set("rule", json!(format!("BFS to depth {} over the alphabet [HS:good, HS:hash0, HS:hash159, HS:otherid (outgoing only), HS:pstr, HS:pstrlen, HS:trunc, {}] on an outgoing and an incoming connection, manager owning both pieces; -while-downloading variants: the client owns nothing, a second connection D (honest seeder) completes pieces at any point (event Dp, so the manager announces them to every connection task) while the connection under test sends good / corrupted handshakes, KeepAlive, Interested, Have; a state is the canonical snapshot of manager + connection task + files + monitor; histories end when the connection task ended. Plus all 160 single-bit corruptions of the info-hash as first message, both directions. Plus three full-session scenarios borrowed from C02 (identity-*): a re-announce lists a connected address followed by a new one, whose peer presents its own announced id (must stay connected) or the id of the connected peer (must be dropped); a host re-listed under a new id. Plus four exchanges with the real session's accept path over loopback TCP (real clock): a dial-in peer stays silent / sends a handshake for another torrent / a good handshake / a Bitfield before any handshake.", depth, PLAIN.join(", "))));
     o.assume("a truncated handshake followed by other bytes is undecodable input (C06's subject); after it nothing is demanded here except (2) and (4)");
     o
 }
@@ -278,6 +313,23 @@ pub fn parse_name(name: &str) -> Hs {
 }
 
 pub fn replay(_ctx: &Ctx, r: &Value) -> i32 {
+    if r["scenario"] == "dial-in" {
+        let dir = core::private_cwd("c08", "replay");
+        let t = torrent();
+        let good = refwire::encode(&refwire::handshake(t.meta.info_hash(), b"-HS0001-dialinpeer00"));
+        let mut foreign = good.clone();
+        foreign[28] ^= 0x01;
+        let chunks = match r["case"].as_str().unwrap_or("") {
+            "silence" => vec![],
+            "foreign-info-hash" => vec![foreign],
+            "good-handshake" => vec![good],
+            _ => vec![refwire::encode(&Msg::Bitfield(vec![0xc0]))],
+        };
+        let res = crate::c02::dial_in_exchange(&t, &dir, chunks);
+        println!("dial-in exchange {:?}: {:?}", r["case"], res.as_ref().map(|(b, a, c)| (b.len(), refwire::decode_stream(a).0.iter().map(|m| m.short()).collect::<Vec<_>>(), *c)));
+        println!("(bytes received before sending, messages received afterwards, closed by the client); judged as in `./check C08`");
+        return if res.is_ok() { 1 } else { 2 };
+    }
     for (s, _) in crate::c02::identity_scenarios() {
         if explore::Sys::name(&s) == r["scenario"].as_str().unwrap() {
             return explore::replay_verbose(&s, &explore::hist_from_json(&r["history"]), "C08");
